@@ -209,7 +209,8 @@ fn check_softmax(x: &[f32], sh: Sh, fam: &str, out: &mut Out) -> Option<Vec<f32>
     }
     let want = softmax64(x);
     for i in 0..x.len() {
-        if (y[i] as f64 - want[i]).abs() > 1e-5 * want[i] + 3e-45 {
+        // the f32 sum of n positive terms carries a relative error of up to n * eps
+        if (y[i] as f64 - want[i]).abs() > (1e-5 + x.len() as f64 * EPS32) * want[i] + 3e-45 {
             out.viol("softmax:value", format!("softmax({} vector, n={})[{}] = {:e}, expected {:e}", fam, x.len(), i, y[i], want[i]), J::f32s(x));
             break;
         }
@@ -233,7 +234,7 @@ impl Monitor for C07 {
         }
     }
     fn rule(&self) -> &'static str {
-        "sweep: case k = all bit patterns k*2^20 .. (k+1)*2^20, non-finite ones skipped, through forward and backward of ReLU, LeakyReLU, Sigmoid, Tanh, Linear (public API, one tensor per chunk; every 16th chunk as a 3-D tensor) against f64 oracles (value 1e-5 relative + 1e-7 absolute for sigmoid/tanh, derivative 1e-5 relative + 1e-6 absolute, never NaN/inf, sigmoid in [0,1], tanh in [-1,1], either one-sided derivative at +-0); distinct = number of distinct finite bit patterns. stratified: per (sign, exponent) 2^15 mantissas incl. all-zeros and all-ones. rank: random CxHxW tensors, both the 3-D and the flat path are compared with the oracle (same tolerances) and must preserve the shape field and the nesting. softmax: 100 vectors per case from 8 families (moderate, huge +-3e38, all-equal, one-dominant, denormal, long-tail, large-offset, wide), lengths 1..64 and (every tenth vector) 65..4097, flat and 3-D: finite, >= 0, sum 1, equals f64 soft-max, shift-invariant, arg-max preserved."
+        "sweep: case k = all bit patterns k*2^20 .. (k+1)*2^20, non-finite ones skipped, through forward and backward of ReLU, LeakyReLU, Sigmoid, Tanh, Linear (public API, one tensor per chunk; every 16th chunk as a 3-D tensor) against f64 oracles (value 1e-5 relative + 1e-7 absolute for sigmoid/tanh, derivative 1e-5 relative + 1e-6 absolute, never NaN/inf, sigmoid in [0,1], tanh in [-1,1], either one-sided derivative at +-0); distinct = number of distinct finite bit patterns. stratified: per (sign, exponent) 2^15 mantissas incl. all-zeros and all-ones. rank: random CxHxW tensors, both the 3-D and the flat path are compared with the oracle (same tolerances) and must preserve the shape field and the nesting. softmax: 100 vectors per case from 8 families (moderate, huge +-3e38, all-equal, one-dominant, denormal, long-tail, large-offset, wide), lengths 1..64 and (every tenth vector) 65..4097, flat and 3-D: finite, >= 0, sum 1, equals f64 soft-max (1e-5 + n*eps relative), shift-invariant, arg-max preserved."
     }
     fn assumptions(&self) -> Vec<&'static str> {
         vec!["f64 libm is the oracle for exp/tanh/cosh", "soft-max backward is not part of C07 (it belongs to C01)"]
@@ -346,7 +347,7 @@ impl Monitor for C07 {
                             let xs: Vec<f32> = x.iter().map(|v| v + c).collect();
                             if let Ok(t) = guard(|| Function::create(&lib_act(Act::Softmax)).forward(&tensor_of(Sh::Flat(n), &xs))) {
                                 let y2 = flat(&t);
-                                let bound = (2.0 * delta).exp() - 1.0 + 2e-5;
+                                let bound = (2.0 * delta).exp() - 1.0 + 2e-5 + 2.0 * n as f64 * EPS32;
                                 for i in 0..n {
                                     if (y2[i] as f64 - y[i] as f64).abs() > bound * (y[i] as f64) + 4e-45 {
                                         out.viol(
